@@ -23,8 +23,8 @@ fn any_token<S: Source, const N: usize>(s: &mut S) -> ([u8; N], usize) {
     (bytes, len)
 }
 
-pub const DEEP_A: usize = 4;
-pub const DEEP_B: usize = 5;
+pub const DEEP_A: usize = 6;
+pub const DEEP_B: usize = 7;
 
 fn concat(a: &[u8], b: &[u8]) -> ([u8; DEEP_A + DEEP_B], usize) {
     let mut out = [0u8; DEEP_A + DEEP_B];
@@ -46,7 +46,7 @@ fn concat(a: &[u8], b: &[u8]) -> ([u8; DEEP_A + DEEP_B], usize) {
 pub fn fuse_tokens<S: Source>(s: &mut S) {
     fuse_tokens_sized::<S, MAX_A, MAX_B>(s)
 }
-/// Same with tokens of up to 4 and 5 bytes (thorough tier).
+/// Same with tokens of up to 6 and 7 bytes (thorough tier).
 pub fn fuse_tokens_deep<S: Source>(s: &mut S) {
     fuse_tokens_sized::<S, DEEP_A, DEEP_B>(s)
 }
@@ -78,7 +78,7 @@ fn fuse_tokens_sized<S: Source, const NA: usize, const NB: usize>(s: &mut S) {
     }
 }
 proof!(#[kani::unwind(9)] c02_fuse_tokens => fuse_tokens);
-proof!(#[kani::unwind(11)] c02_fuse_tokens_deep => fuse_tokens_deep);
+proof!(#[kani::unwind(15)] c02_fuse_tokens_deep => fuse_tokens_deep);
 
 /// H-fuse-dense: the dense/readable writers replace the character rule by `break_concat` before
 /// `..`, `break_variable_arguments` before `...`, `break_minus` before a unary `-`,
@@ -87,7 +87,7 @@ proof!(#[kani::unwind(11)] c02_fuse_tokens_deep => fuse_tokens_deep);
 pub fn fuse_dense<S: Source>(s: &mut S) {
     fuse_dense_sized::<S, MAX_A, MAX_B>(s)
 }
-/// Same with tokens of up to 4 and 5 bytes (thorough tier).
+/// Same with tokens of up to 6 and 7 bytes (thorough tier).
 pub fn fuse_dense_deep<S: Source>(s: &mut S) {
     fuse_dense_sized::<S, DEEP_A, DEEP_B>(s)
 }
@@ -127,4 +127,4 @@ fn fuse_dense_sized<S: Source, const NA: usize, const NB: usize>(s: &mut S) {
     }
 }
 proof!(#[kani::unwind(9)] c02_fuse_dense => fuse_dense);
-proof!(#[kani::unwind(11)] c02_fuse_dense_deep => fuse_dense_deep);
+proof!(#[kani::unwind(15)] c02_fuse_dense_deep => fuse_dense_deep);
